@@ -23,6 +23,7 @@ func init() {
 		Assumptions: []string{"behaviour after stepping off an end is not judged (the statement does not define it); each walk uses a fresh cursor"},
 		MinObs:      map[string]int64{"walks": 30000, "steps_checked": 100000, "seekiters_checked": 10000, "early_stops_checked": 5000, "empty_tree_cases": 50, "walks_height_ge2": 3000},
 		Run:         runC10,
+		EvalObs:     []string{"walks", "seekiters_checked", "early_stops_checked"},
 	})
 }
 
